@@ -393,6 +393,46 @@ def run_mixed_kinds(ctx):
     return n
 
 
+def run_tagged_template(ctx):
+    """a YAML template that uses EVERY short-form tag of the tag table (sequence tags with a list, the others with a scalar) under
+    rules that look at the long-form key each of them stands for; 12 fresh processes per output mode: same exit code, same bytes"""
+    from .. import tables
+    try:
+        pairs, sets = tables.tag_tables()
+    except tables.TableError:
+        j = json.load(open(os.path.join(VERIF, 'inventory', 'tag_tables.json')))
+        pairs, sets = [tuple(x) for x in j['pairs']], j['sets']
+    seq = set(sets['SEQUENCE_VALUE_FUNC_REF'])
+    lines, rules = ['Resources:', '  r:', '    Type: T', '    Properties:'], []
+    for i, (short, longf) in enumerate(sorted(pairs)):
+        lines.append('      p%d: !%s %s' % (i, short, '[a, b]' if short in seq else 'val'))
+        rules.append('rule t%d_%s {\n  Resources.r.Properties.p%d."%s" exists\n}\n' % (i, re.sub(r'\W', '_', short), i, longf))
+    d = os.path.join(ctx.wd, 'tagged')
+    e2e.write_files(d, {'r.guard': ''.join(rules), 'd.yaml': '\n'.join(lines) + '\n'})
+    jobs, meta = [], []
+    for lab, fl, cmpk in (('console', [], 'lines'), ('s-json', ['--structured', '-o', 'json', '-S', 'none'], 'bytes'), ('o-yaml', ['-o', 'yaml', '-S', 'none'], 'bytes')):
+        for rep in range(12):
+            jobs.append({'args': ['validate', '-r', 'r.guard', '-d', 'd.yaml'] + fl, 'cwd': d}); meta.append((lab, cmpk))
+    groups = {}
+    for (lab, cmpk), r in zip(meta, e2e.run_many(jobs)):
+        groups.setdefault((lab, cmpk), []).append(r)
+    n = 0
+    for (lab, cmpk), rs in groups.items():
+        n += 1
+        info = {'class': 'process-determinism', 'mode': lab, 'rules': ''.join(rules), 'doc_yaml': '\n'.join(lines)}
+        codes = sorted(set(str(r[0]) for r in rs))
+        outs = set(json.dumps(console_norm(r[1])) for r in rs) if cmpk == 'lines' else set(r[1] for r in rs)
+        if len(codes) != 1:
+            ctx.failing('%s on a template with every short-form tag: exit code differs between identical runs: %s' % (lab, codes), info, found=True)
+        elif len(outs) != 1:
+            a, b = list(outs)[:2]
+            ctx.failing('%s on a template with every short-form tag: output differs between identical runs in fresh processes' % lab, dict(info, first=str(a)[:600], second=str(b)[:600]), found=True)
+    ctx.coverage['tagged_template_groups'] = n
+    ctx.coverage['tagged_template_tags'] = len(pairs)
+    ctx.coverage['evaluations'] += len(jobs)
+    return n
+
+
 def run(ctx):
     ctx.build(cli=True)
     pr = ctx.proofs('C05')
@@ -405,7 +445,7 @@ def run(ctx):
     n1 = run_processes(ctx, 60 if thorough else 14, thorough)
     n2 = run_in_process(ctx, 60 if thorough else 25)
     n3 = run_environment(ctx, 40 if thorough else 10)
-    n4 = run_history(ctx, 40 if thorough else 10) + run_many_files(ctx) + run_mixed_kinds(ctx)
+    n4 = run_history(ctx, 40 if thorough else 10) + run_many_files(ctx) + run_mixed_kinds(ctx) + run_tagged_template(ctx)
     ctx.coverage['distinct_nontrivial'] = n1 + n2 + n3 + n4
     ctx.coverage['rule'] = ('group = (generated rules + document, command and output mode); each group is run in %d fresh processes and compared (bytes for '
                             'JSON/YAML/SARIF/print-json/parse-tree/rulegen, JUnit with time attributes masked, sorted lines for console output, stderr likewise); '
